@@ -24,7 +24,19 @@ EXPAND_TARGET = os.path.join(VERIF, ".cache", "expand-target")
 PRIMS = {"u8", "i8", "u16", "i16", "u32", "i32", "u64", "i64", "u128", "i128", "bool"}
 
 
+_EXPAND_LOCK = __import__("threading").Lock()
+_EXPANDED = {}
+
+
 def expand_crate(crate):
+    """one expansion per process (units of one check run share it)"""
+    with _EXPAND_LOCK:
+        if crate not in _EXPANDED:
+            _EXPANDED[crate] = _expand_crate(crate)
+        return _EXPANDED[crate]
+
+
+def _expand_crate(crate):
     os.makedirs(EXPAND_DIR, exist_ok=True)
     out = os.path.join(EXPAND_DIR, crate + ".rs")
     env = dict(os.environ)
@@ -155,7 +167,10 @@ def collect(src):
     return structs, impls, aliases, enums
 
 
-def make(crates=("chia-protocol",), limit=None):
+def make(crates=("chia-protocol",), limit=None, hw=True, part=None, parts=1, out_name="streamable_derived"):
+    """part: None = everything in one file; 0..parts-1 = that slice of the derived impls (round-robin over the
+    sorted names); "hw" = only the hand-written codecs.  Types whose impl lives in another slice are declared
+    opaque with the (there proved) trait contract assumed."""
     """Return (template_path, stats).  The template is written under .cache/gen."""
     lines = []
     stats = {"derived_impls": 0, "covered": 0, "opaque": [], "skipped": []}
@@ -183,12 +198,20 @@ def make(crates=("chia-protocol",), limit=None):
         for an, at in sorted(aliases.items()):
             if at.name == "BytesImpl" and at.args:
                 L("pub type %s = BytesImpl<%s>;" % (an, at.args[0].name))
+        hw_dir = os.path.join(VERIF, "contracts", "handwritten")
+        handwritten = sorted(f[:-5] for f in os.listdir(hw_dir) if f.endswith(".part") and not f.startswith("_")
+                             and f[:-5] in structs) if os.path.isdir(hw_dir) and hw else []
         derived = [n for n in impls if n in structs and not structs[n]["generic"] and not structs[n]["tuple"]
                    and n not in known_core]
         # hand-written impls use plain `impl Streamable for X` (no chia_traits:: prefix) and are not in `impls`
         stats["derived_impls"] += len(derived)
         chosen = sorted(derived)[:limit] if limit else sorted(derived)
-        covered = set(chosen)
+        if part == "hw":
+            chosen = []
+        elif part is not None:
+            chosen = [n for i, n in enumerate(chosen) if i % parts == part]
+            handwritten = []
+        covered = set(chosen) | set(handwritten)
 
         def resolve(te):
             """Return a type text usable in the unit; register opaque types as needed."""
@@ -229,7 +252,9 @@ def make(crates=("chia-protocol",), limit=None):
             for f, _ in ftypes:
                 expr = "self.%s.enc_onto(%s)" % (f, expr)
             L("    closed spec fn enc_onto(&self, p: Seq<u8>) -> Seq<u8> { %s }" % expr)
+            L("    closed spec fn dig_onto(&self, p: Seq<u8>) -> Seq<u8> { %s }" % expr.replace(".enc_onto(", ".dig_onto("))
             L("    closed spec fn wf(&self) -> bool { %s }" % (" && ".join("self.%s.wf()" % f for f, _ in ftypes) or "true"))
+            L("    closed spec fn hashable(&self) -> bool { %s }" % (" && ".join("self.%s.hashable()" % f for f, _ in ftypes) or "true"))
             # lemma: chain
             L("    proof fn lemma_enc_appends(&self, p: Seq<u8>) {")
             L("        let e = Seq::<u8>::empty();")
@@ -249,15 +274,29 @@ def make(crates=("chia-protocol",), limit=None):
             L("}")
             emitted += 1
         stats["covered"] += emitted
+        if handwritten:
+            L("//@include contracts/handwritten/_utils.part")
+        for name in handwritten:
+            st = structs[name]
+            L("pub struct %s {" % name)
+            for f, t in st["fields"]:
+                L("    pub %s: %s," % (f, resolve(t)))
+            L("}")
+            L("//@include contracts/handwritten/%s.part" % name)
+        stats["handwritten"] = handwritten
     for n in sorted(declared_opaque):
         L("// ASSUMED Streamable contract for a field type outside this unit")
         L("#[verifier::external_body]")
         L("pub struct %s { _p: [u8; 0] }" % n)
         L("uninterp spec fn opaque_enc_%s(v: &%s) -> Seq<u8>;" % (n, n))
         L("uninterp spec fn opaque_wf_%s(v: &%s) -> bool;" % (n, n))
+        L("uninterp spec fn opaque_dig_%s(v: &%s) -> Seq<u8>;" % (n, n))
+        L("uninterp spec fn opaque_hashable_%s(v: &%s) -> bool;" % (n, n))
         L("impl Streamable for %s {" % n)
         L("    closed spec fn enc_onto(&self, p: Seq<u8>) -> Seq<u8> { p + opaque_enc_%s(self) }" % n)
+        L("    closed spec fn dig_onto(&self, p: Seq<u8>) -> Seq<u8> { p + opaque_dig_%s(self) }" % n)
         L("    closed spec fn wf(&self) -> bool { opaque_wf_%s(self) }" % n)
+        L("    closed spec fn hashable(&self) -> bool { opaque_hashable_%s(self) }" % n)
         L("    proof fn lemma_enc_appends(&self, p: Seq<u8>) { assert(Seq::<u8>::empty() + opaque_enc_%s(self) =~= opaque_enc_%s(self)); }" % (n, n))
         L("    #[verifier::external_body] fn update_digest(&self, digest: &mut Sha256) { unimplemented!() }")
         L("    #[verifier::external_body] fn stream(&self, out: &mut Vec<u8>) -> Result<()> { unimplemented!() }")
@@ -268,7 +307,9 @@ def make(crates=("chia-protocol",), limit=None):
         L("uninterp spec fn opaque_enc_arr<T, const N: usize>(v: &[T; N]) -> Seq<u8>;")
         L("impl<T: Streamable, const N: usize> Streamable for [T; N] {")
         L("    closed spec fn enc_onto(&self, p: Seq<u8>) -> Seq<u8> { p + opaque_enc_arr(self) }")
+        L("    closed spec fn dig_onto(&self, p: Seq<u8>) -> Seq<u8> { p + opaque_enc_arr(self) }")
         L("    closed spec fn wf(&self) -> bool { true }")
+        L("    closed spec fn hashable(&self) -> bool { true }")
         L("    proof fn lemma_enc_appends(&self, p: Seq<u8>) { assert(Seq::<u8>::empty() + opaque_enc_arr(self) =~= opaque_enc_arr(self)); }")
         L("    #[verifier::external_body] fn update_digest(&self, digest: &mut Sha256) { unimplemented!() }")
         L("    #[verifier::external_body] fn stream(&self, out: &mut Vec<u8>) -> Result<()> { unimplemented!() }")
@@ -277,7 +318,7 @@ def make(crates=("chia-protocol",), limit=None):
     stats["opaque"] = sorted(declared_opaque)
     L("} // verus!")
     L("fn main() {}")
-    out = os.path.join(VERIF, ".cache", "gen", "streamable_derived.vrs")
+    out = os.path.join(VERIF, ".cache", "gen", out_name + ".vrs")
     os.makedirs(os.path.dirname(out), exist_ok=True)
     open(out, "w").write("\n".join(lines) + "\n")
     return out, stats
